@@ -111,6 +111,18 @@ func (s *Session) AccountCheck() {
 			s.fail("C04", "live-set", "pages neither free nor internal are %s, the live pages are %s", runsOf(live), runsOf(want))
 		}
 	}
+	// the available-page counters of the free lists are the number of pages in them
+	if n := uint64(len(RegionIDs(fs.DataFree))); n != fs.DataAvail {
+		s.fail("C04", "avail-mismatch", "data free list holds %d pages but reports %d available", n, fs.DataAvail)
+	}
+	if n := uint64(len(RegionIDs(fs.MetaFree))); n != fs.MetaAvail {
+		s.fail("C04", "avail-mismatch", "meta free list holds %d pages but reports %d available", n, fs.MetaAvail)
+	}
+	for _, e := range append(append([][2]uint64(nil), fs.DataFree...), fs.MetaFree...) {
+		if e[1] == 0 {
+			s.fail("C10", "empty-region", "free list holds an empty region at page %d (it is read back as one page)", e[0])
+		}
+	}
 	// internal pages in use (overwrite pages, free-list pages, mapping pages) lie below the end markers:
 	// what lies beyond is cut off by the next truncate / not mapped after reopen (C04; C14 after a resize)
 	{
@@ -268,6 +280,22 @@ func (s *Session) RunTx(r *RNG, p Params) string {
 		full := s.Cfg.MaxPages > 0 && uint64(len(live))*100 > s.Cfg.MaxPages*uint64(keep)
 		w := r.Intn(100)
 		switch {
+		case w < 2 && !full:
+			// allocate a few pages and free all of them again, in ascending or descending order
+			// (the end of the data area moves forth and back inside one transaction)
+			ids, res := s.Alloc(2 + r.Intn(4))
+			if res == "ok" {
+				if r.Chance(50) {
+					for i := len(ids) - 1; i >= 0; i-- {
+						s.Free(ids[i])
+					}
+				} else {
+					for _, id := range ids {
+						s.Free(id)
+					}
+				}
+				s.mark("alloc-free-all")
+			}
 		case w < 22 && !full:
 			n := 1 + r.Intn(3)
 			if r.Chance(p.BigAlloc) {
